@@ -4,7 +4,8 @@
 # property's quick check runs against the copy (VERIF_REPO), and the copy is removed.
 # Prints one line per seed: CAUGHT (new signatures) or MISSED. Exit 1 if any is missed.
 export GOFLAGS=-mod=mod GOPROXY=off GOSUMDB=off GOTOOLCHAIN=local
-cd /verif || exit 2
+cd "$(dirname "$0")/.." || exit 2
+root=$(pwd)
 seeds=${@:-$(ls seeded | grep -E '^C[0-9]+-[0-9]+$')}
 scratch=$(mktemp -d /tmp/seedrun.XXXXXX)
 trap 'rm -rf "$scratch"' EXIT
@@ -14,7 +15,7 @@ for s in $seeds; do
   case $s in C07-1) props="C12";; *) props="$prop";; esac
   rm -rf "$scratch/sarama"; mkdir -p "$scratch/sarama"
   rsync -a --exclude .git /repo/ "$scratch/sarama/"
-  if ! (cd "$scratch/sarama" && patch -p1 -s --no-backup-if-mismatch < /verif/seeded/$s/patch.diff); then
+  if ! (cd "$scratch/sarama" && patch -p1 -s --no-backup-if-mismatch < $root/seeded/$s/patch.diff); then
     echo "$s: PATCH DOES NOT APPLY to the current tree"; missed=1; continue
   fi
   out=""
